@@ -62,11 +62,65 @@ def run(Q, maxn, exact=False, carrier="dense", vectors=None):
             out[(name, n)] = full
     return out
 
+def implicit_relabel(rnd):
+    """implicit mode, two or three explicit subspaces: relabelling the explicit subspaces relabels the blocks (the implicit one stays last)"""
+    import implicit_corr as IC
+    for _ in range(50):
+        P = IC.gen(rnd)
+        if len(P["parts"]) >= 2 and P["solver"] == "direct": break
+    else: return None
+    if rnd.random() < 0.5 and len(P["parts"][0]) >= 2: P["parts"] = [P["parts"][0][:1], P["parts"][0][1:]] + P["parts"][1:]     # three explicit subspaces
+    parts = P["parts"]; nb = len(parts); N = P["N"]; R, L, herm = P["R"], P["L"], P["herm"]
+    # (keep degenerate partners in one subspace)
+    ev = P["ev"]
+    for i in range(nb):
+        for j in range(i + 1, nb):
+            if any(abs(ev[a] - ev[b]) < 1e-9 for a in parts[i] for b in parts[j]): return None
+    perm = list(range(nb)); rnd.shuffle(perm)
+    if perm == list(range(nb)): perm = perm[1:] + perm[:1]
+    H = {(0,): sparse.csr_array(P["H0"]), (1,): sparse.csr_array(P["H1"])}
+    if P["H2"] is not None: H[(2,)] = sparse.csr_array(P["H2"])
+    def basis(idx): return R[:, idx] if herm else (R[:, idx], L[:, idx])
+    fd = tuple(b for b in range(nb) if rnd.random() < 0.3)
+    A = block_diagonalize(H, subspace_eigenvectors=[basis(p) for p in parts], fully_diagonalize=fd, hermitian=herm)
+    B = block_diagonalize(H, subspace_eigenvectors=[basis(parts[perm[i]]) for i in range(nb)], fully_diagonalize=tuple(i for i in range(nb) if perm[i] in fd), hermitian=herm)
+    def dense(v, shape):
+        if v is zero: return np.zeros(shape, dtype=complex)
+        if v is one: return np.eye(shape[0], dtype=complex)
+        if hasattr(v, "toarray"): v = v.toarray()
+        if hasattr(v, "matmat") and not isinstance(v, np.ndarray): v = v @ np.eye(v.shape[1])
+        return np.asarray(v, dtype=complex).reshape(shape)
+    size = lambda b: N if b == nb else len(parts[b])
+    lab = lambda i: perm[i] if i < nb else nb
+    out_ = []
+    for name, SA, SB in zip(("H_tilde", "U", "U_inv"), A, B):
+        for n in range(0, 4):
+            for i in range(nb + 1):
+                for j in range(nb + 1):
+                    if i == nb and j == nb: continue
+                    if name == "H_tilde" and (i == nb or j == nb): continue
+                    shape = (size(lab(i)), size(lab(j)))
+                    out_.append((name, n, (i, j), dense(SB[(i, j, n)], shape), dense(SA[(lab(i), lab(j), n)], shape)))
+    return dict(hermitian=herm, complex=P["cplx"], parts=parts, perm=perm, fd=list(fd), N=N), out_
+
 def main(seed, ncases, driver, out):
     failures = []; dist = {}; samples = []; evals = 0; distinct = 0; worst = 0.0
     for c in range(ncases):
         if skip(c): continue
         rnd = case_rnd(seed, c); tr = TRANSFORMS[c % len(TRANSFORMS)]; exact = (c % 7 == 3)
+        if c % 24 in (5, 17):
+            # implicit mode: the explicit subspaces in another order
+            try: res = implicit_relabel(rnd)
+            except Exception as e:
+                failures.append({"case": c, "transform": "implicit-relabel", "kind": "implementation-raises", "error": type(e).__name__ + ": " + str(e)[:200]}); continue
+            if res is None: continue
+            dsc, cmpl = res; dist["implicit-relabel"] = dist.get("implicit-relabel", 0) + 1; bad = None
+            for name, n, blk, got, want in cmpl:
+                evals += 1; err = float(np.abs(got - want).max()) if got.size else 0.0; sc = 1 + (float(np.abs(want).max()) if want.size else 0); worst = max(worst, err / sc)
+                if err > 1e-8 * sc: bad = bad or {"kind": "relation-fails", "series": name, "order": [n], "block": list(blk), "abs_err": err}
+            distinct += 1
+            if bad: failures.append(dict({"case": c, "transform": "implicit-relabel", "problem": dsc}, **bad))
+            continue
         hermitian = rnd.random() < 0.75
         needk = 2 if tr in ("permute-parameters", "merge-parameters") else (1 if tr in ("pad-parameter", "power-substitution") else None)
         P = problem(rnd, hermitian, needk)
